@@ -37,8 +37,12 @@ CFG = {
         "these answers and snapshots); case_sound is a real theorem in both cases, proved through the model "
         "(seq_sound via do_op_spec; conc_sound via the invariants of C15_Sched.v and sched_same_key_serial). "
         "Environment assumptions: a failing callback leaves the store unchanged; callbacks touch only the key they "
-        "are called for; value sizes are encoded in the value's number (hundreds digits) so that model and harness agree on Size(); locHash(MinInt) is negative and the "
-        "caller panics before anything is accepted (DESIGN section 8), so lochash_in_range carries that guard; the "
+        "are called for; value sizes are encoded in the value's number (hundreds digits) so that model and harness agree on Size(); mux.Bytes keys are routed by the group but handed to the real cache facade as a string with the same "
+        "content (a []byte is not comparable: with the two provided facades DoGet panics in the caller and every "
+        "other call in the worker goroutine - an observation outside the property, recorded in DESIGN); "
+        "locHash is modelled as repaired (defect 21: reduce, then absolute value): in range for every hash, no "
+        "call panics (c15_no_call_panics; the monitors count a panicking call as a violation); the code before the "
+        "repair is kept as loc_prefix with c15_lochash_prefix_refuted (hash MinInt, 3 workers: index -2); the "
         "a cached nil stands for 'the store holds nothing for the key' (store row absent = nil), so coherence with "
         "nil values is the same equation; context cancellation by a callback is exercised in sequential histories; in scheduled runs the scheduler itself "
         "cancels the context of the job a worker is parked in (machine label GAbandon: the caller gets the context's "
